@@ -29,7 +29,8 @@ BoundaryCuts(s, g) == LET total == PhysLen(s) + g IN
                     {b + 28 + s[k+1].hdrsize + 2 * s[k+1].sigsize + e : e \in {-1, 0, 1}}
                ELSE {})}
 AllCuts(s, g) == 0..(PhysLen(s) + g)
-Cuts(s, g) == IF Tier = "q" THEN BoundaryCuts(s, g) ELSE AllCuts(s, g)
+(* thorough tier: every cut point of the stream with no or one byte of filler; with a longer filler the cut points around the boundaries *)
+Cuts(s, g) == IF Tier = "q" \/ g > 1 THEN BoundaryCuts(s, g) ELSE AllCuts(s, g)
 
 NbrRecs == {r \in Recs : r.hdrsize = 0 /\ r.n = 1}
 NearStreams == {<<r>> : r \in Recs}
